@@ -51,7 +51,7 @@ func (c19Driver) ID() string { return "C19" }
 
 func (c19Driver) Tier(t string) core.Tier {
 	if t == "thorough" {
-		return core.Tier{Runs: 120_000, AnnounceEvery: 1}
+		return core.Tier{Runs: 250_000, AnnounceEvery: 1}
 	}
 	return core.Tier{Runs: 8_000, AnnounceEvery: 1}
 }
